@@ -29,22 +29,6 @@ def r1_r2(cx):
     acc = ls.calls("=accept"); ex = ls.calls("=execute")
     if len(acc) != 1 or len(ex) != 1: raise AnchorMissing("listen: accept/execute")
     acc, ex = acc[0], ex[0]
-    # countdown local: assigned idle_timeout * 1000
-    def is_idle_ms(s):
-        if s.kind != "assign" or s.lhs.p or s.rv != "use" or not s.ops or s.ops[0].place is None: return False
-        ds = du.defs.get(s.ops[0].place.l, [])
-        if len(ds) != 1 or ds[0][0] != "stmt": return False
-        o = ds[0][1]
-        if o.kind != "assign" or o.rv != "bin" or not o.op.startswith("Mul") or not any(x.is_const and x.cint() == 1000 for x in o.ops): return False
-        other = [x for x in o.ops if not x.is_const]
-        if not other or other[0].place is None: return False
-        for kk, dd in du.defs.get(other[0].place.l, []):
-            if kk == "stmt" and dd.ops and dd.ops[0].place is not None and "idle_timeout" in dd.ops[0].place.fields(): return True
-        return False
-    resets = [s for s in ls.stmts() if is_idle_ms(s)]
-    locs = {s.lhs.l for s in resets}
-    if len(locs) != 1: raise AnchorMissing("listen: countdown local (idle_timeout * 1000) not identified (%d candidates)" % len(locs))
-    tw = locs.pop()
     site = "%s %s" % (acc.sp, ls.path)
     # quantum local: second argument of accept
     wt = ref_chain(du, acc.args[1].place.l)[-1]
@@ -59,6 +43,28 @@ def r1_r2(cx):
     if tedge is None: raise AnchorMissing("listen: match on e.kind()")
     arm = cfg.reach(tedge[2], blocked_nodes={acc.bb})
     err_rets = [s for s in ls.stmts() if s.kind == "assign" and s.lhs.l == 0 and s.rv == "agg" and isinstance(s.agg, dict) and s.agg.get("variant") == "Err" and s.bb in arm]
+    # the countdown: the local compared with the quantum in the Timeout arm
+    tw = None
+    for b in ls.blocks:
+        if b.cleanup or b.term.kind != "switch" or b.idx not in arm: continue
+        c = switch_cond(ls, du, b.term)
+        if c.kind == "bin" and c.op in ("Le", "Lt", "Ge", "Gt") and c.a.place is not None and c.b.place is not None:
+            la = ref_chain(du, c.a.place.l)[-1]; lb = ref_chain(du, c.b.place.l)[-1]
+            if lb == wt and la != wt: tw = la
+            elif la == wt and lb != wt: tw = lb
+    if tw is None: raise AnchorMissing("listen: no comparison of a countdown with the poll quantum in the Timeout arm")
+    def is_idle_ms(s):
+        """assignment `countdown = idle_timeout * 1000` (possibly through a hoisted local)"""
+        if s.kind != "assign" or s.lhs.p or s.lhs.l != tw or s.rv != "use" or not s.ops or s.ops[0].place is None: return False
+        for k, o in sl.origins(s.ops[0]):
+            if k == "bin" and o.op.startswith("Mul") and any(x.is_const and x.cint() == 1000 for x in o.ops):
+                other = [x for x in o.ops if not x.is_const]
+                if other and other[0].place is not None:
+                    for kk, dd in du.defs.get(other[0].place.l, []):
+                        if kk == "stmt" and dd.ops and dd.ops[0].place is not None and "idle_timeout" in dd.ops[0].place.fields(): return True
+        return False
+    resets = [s for s in ls.stmts() if is_idle_ms(s)]
+    if not resets: raise AnchorMissing("listen: the countdown is never set to idle_timeout * 1000")
     # the two conditions
     le_edge = busy0_edge = None; busy_false = None; le_false = None
     for b in ls.blocks:
